@@ -27,6 +27,7 @@ def _jobs(tier):
     slow = H.L1(16, 8, 1, 2, 1, 2)
     slow["nodes"]["a"]["startup_sleep"] = 1.0
     more["L1.slow-startup"] = slow
+    more["L5"] = H.L5()
     short = [h for h in H.histories(1, 2, override=True)]
     two = H.histories(2, 2 if tier == "thorough" else 1, override=False)
     # deep: deviation-bounded exploration
@@ -44,6 +45,13 @@ def _jobs(tier):
         for pol in pols:
             for h in two_deep:
                 deep[(hn, H.hist_name(h), pol, "SIM", "G1")] = dict(spec=core[hn], user=h, policy=pol, clock="SIM", rtf=0)
+    # the user pauses until all workers have gone quiet before the next lifecycle call (only on graphs that do go quiet:
+    # no free-running source): stop()/reset() must also work against idle workers
+    idle_h = [[["reset"], ["idle"], ["stop"], ["reset"], ["stop"]], [["run"], ["idle"], ["stop"], ["run"], ["stop"]], [["reset"], ["step"], ["idle"], ["reset"], ["step"], ["stop"]]]
+    for hn, sp in (("L0", more["L0"]), ("L5", more["L5"]), ("L2", core["L2"])):
+        for pol in pols:
+            for h in idle_h:
+                deep[(hn, H.hist_name(h), pol, "SIM", "G1")] = dict(spec=sp, user=h, policy=pol, clock="SIM", rtf=0)
     if tier == "thorough":
         for hn, sp in more.items():
             for pol in pols:
